@@ -14,8 +14,10 @@
    order  : odd = the returned profiler (remaining events) is dropped before the Sim
    hold   : odd = the caller keeps its GateRefs / ModuleRefs until everything else is dropped
 
-   Output (printed twice: the second simulation in the same process must behave like the first):
+   Output: the record
      ok res nrem time  created(proc elem task msg)  once(proc elem task msg)  notonce alive  nlog log*
+   twice (the second simulation in the same process must behave like the first), then one number:
+   1 iff any object at all is still allocated after the drop
    No proofs in this file. *)
 From Coq Require Import List NArith Arith Bool.
 From DesVerif Require Import Common.Codec CQueue.Model CQueue.Spec Own.Heap Own.Shape Own.Check Own.World.
@@ -257,6 +259,8 @@ Definition run_gen (pin : bool) (input : list N) : list N :=
   let total := count_tag user_tag h' in
   let notonce := total - (nth 0 once 0 + nth 1 once 0 + nth 2 once 0 + nth 3 once 0) in
   let rec := [b2n ok; res; nrem; time] ++ created ++ once ++ [notonce; alive_users h'; N.of_nat (length (w_log w) / 4)] ++ w_log w in
-  rec ++ rec.
+  (* the last number: is anything at all still allocated (the implementation: did the live heap
+     grow between two further executions of the same simulation) *)
+  rec ++ rec ++ [b2n (existsb live h')].
 
 Definition run (input : list N) : list N := run_gen false input.
